@@ -496,6 +496,8 @@ def _process_child_attrs(cls, retval, kwargs):
                 logger.warning("Overriding child_attrs_all['exc'] to True "
                                                                   "for %r", cls)
 
+            # the dict belongs to the caller, who may well pass it again
+            child_attrs_all = dict(child_attrs_all)
             child_attrs_all.update(D_EXC)
 
         # update child_attrs_noexc with exc=False
@@ -504,7 +506,8 @@ def _process_child_attrs(cls, retval, kwargs):
                 logger.warning("Overriding 'exc' for %s.%s from "
                          "child_attrs_noexc with False", cls.get_type_name(), k)
 
-            v['exc'] = False
+            # ditto: mark a copy of the caller's entry
+            v = child_attrs_noexc[k] = dict(v, exc=False)
 
         # update child_attrs with data from child_attrs_noexc
         if child_attrs is None:
